@@ -62,9 +62,12 @@ func Balloon.RefreshVersion
 // ---- C09: after a state transfer the in-memory structures are re-derived from the store ----
 func Balloon.RebuildCache
   props C09
-  requires b.hyperTree != nil
-  modifies everything, rebuildSeenLoads
+  requires HyperLive(b.hyperTree)
+  may_panic
+  modifies everything, rebuildSeenLoads, openReaders, tilesRead, readerExhausted, cachePuts
   ensures C09/hyper-cache-rebuilt: rebuildSeenLoads == snapshotLoads
+  ensures C08,C09/reads-to-the-end: readerExhausted
+  ensures C08/reader-released: openReaders == old(openReaders)
 
 // ---- C11: queries on arbitrary request data never crash the node ---------------------
 // (the explicit "tampered" panic needs a store whose hyper tree names a version
